@@ -311,7 +311,7 @@ fn bfs_polling(ctx: &Ctx, prop: &'static str, name: &str, ch: u8, timeout_ns: u6
         set_age_cap(u64::MAX);
         k
     };
-    let mut out = bfs(ctx, BState { sc: new_scanner(timeout_ns), ob: PollObserver::new(timeout_opt(timeout_ns)), now: 0 }, alphabet.len(), &step, key, 6_000_000);
+    let mut out = bfs(ctx, BState { sc: new_scanner(timeout_ns), ob: PollObserver::new(timeout_opt(timeout_ns)), now: 0 }, alphabet.len(), &step, key, 400_000);
     let mut probe_transitions = 0u64;
     if out.failure.is_none() && !ctx.reduced {
         // repetition probes (wrapping counters) from a bounded number of states
